@@ -2,5 +2,9 @@ from vdriver import Group
 META = {'level': 'proof'}
 def groups(tier):
     return [Group('decode_signed', 'message', 'C13/signed.c', entry='h_decode_signed',
-                  replace=['crypto__HmacSha256__verify', 'protocol__decode'], kind='unbounded',
-                  clause='decode_signed accepts iff n >= 32, verify(key, buf[0,n-32), buf[n-32,n)) and decode(buf[0,n-32)) succeed')]
+                  replace=['crypto__HmacSha256__verify', 'protocol__decode', 'crypto__HmacSha256__compute', 'protocol__encode'], unwind=40, kind='unbounded',
+                  clause='decode_signed accepts iff n >= 32, verify(key, buf[0,n-32), buf[n-32,n)) and decode(buf[0,n-32)) succeed'),
+            # the callee contract that carries 'the last 32 bytes EQUAL the MAC': HmacSha256::verify itself (same group as C08)
+            Group('hmac.verify', 'hmac', 'C08/hmac_rfc2104.c', entry='h_verify', replace=['crypto__HmacSha256__compute'], unwind=34,
+                  backend=['sat', 'cadical'], kind='constant-unwind', bound='32-byte comparison loop',
+                  clause='verify <=> |mac| == 32 and mac == compute(key, data), byte for byte')]
